@@ -271,6 +271,67 @@ func metaSamples(r *Rng) [][]byte {
 	return out
 }
 
+// specType: MIDI 1.0 status byte table. F4, F5, FD are undefined (unknown); F9 is undefined in MIDI 1.0 too,
+// the library deliberately names it Tick (some devices send a 10 ms tick) and that choice is accepted here.
+func specType(b byte) midi.Type {
+	switch {
+	case b < 0x80:
+		return midi.UnknownMsg
+	case b < 0xF0:
+		return [7]midi.Type{midi.NoteOffMsg, midi.NoteOnMsg, midi.PolyAfterTouchMsg, midi.ControlChangeMsg,
+			midi.ProgramChangeMsg, midi.AfterTouchMsg, midi.PitchBendMsg}[(b>>4)-8]
+	}
+	return [16]midi.Type{midi.SysExMsg, midi.MTCMsg, midi.SPPMsg, midi.SongSelectMsg, midi.UnknownMsg, midi.UnknownMsg, midi.TuneMsg,
+		midi.SysExMsg, midi.TimingClockMsg, midi.TickMsg, midi.StartMsg, midi.ContinueMsg, midi.StopMsg, midi.UnknownMsg,
+		midi.ActiveSenseMsg, midi.ResetMsg}[b&0x0F]
+}
+
+// specMetaType: SMF 1.0 meta event types (plus 08 program name, 09 device name of RP-019); anything else unknown
+func specMetaType(b byte) midi.Type {
+	switch b {
+	case 0x00:
+		return smf.MetaSeqNumberMsg
+	case 0x01:
+		return smf.MetaTextMsg
+	case 0x02:
+		return smf.MetaCopyrightMsg
+	case 0x03:
+		return smf.MetaTrackNameMsg
+	case 0x04:
+		return smf.MetaInstrumentMsg
+	case 0x05:
+		return smf.MetaLyricMsg
+	case 0x06:
+		return smf.MetaMarkerMsg
+	case 0x07:
+		return smf.MetaCuepointMsg
+	case 0x08:
+		return smf.MetaProgramNameMsg
+	case 0x09:
+		return smf.MetaDeviceMsg
+	case 0x20:
+		return smf.MetaChannelMsg
+	case 0x21:
+		return smf.MetaPortMsg
+	case 0x2F:
+		return smf.MetaEndOfTrackMsg
+	case 0x51:
+		return smf.MetaTempoMsg
+	case 0x54:
+		return smf.MetaSMPTEOffsetMsg
+	case 0x58:
+		return smf.MetaTimeSigMsg
+	case 0x59:
+		return smf.MetaKeySigMsg
+	case 0x7F:
+		return smf.MetaSeqDataMsg
+	}
+	return midi.UnknownMsg
+}
+
+// MIDI 1.0 message lengths of the types the accessors (order of midiView.acc) are for; 0 = variable (sysex)
+var midiAccLen = [11]int{3, 3, 3, 2, 3, 2, 3, 2, 3, 2, 0}
+
 // index into the category list (unknown, real-time, system common, channel, sysex, meta) per MIDI 1.0 class of a first byte
 var specCat = [5]int{0, 3, 4, 2, 1}
 
@@ -316,6 +377,17 @@ func c08Oracle(b []byte, mv *midiView, sv *smfView) (bad []string) {
 	if !sv.cat[0] && !sv.cat[swant] {
 		add("smf.Message category is not %s nor unknown: type %d", catNames[swant], sv.typ)
 	}
+	// the type itself, from the MIDI 1.0 status table and the SMF 1.0 meta event table (written here, not read from the library)
+	if len(b) > 0 {
+		if t := specType(b[0]); mv.typ != t {
+			add("midi.Message.Type() = %d, the MIDI 1.0 status table says %d", mv.typ, t)
+		}
+		if b[0] == 0xFF && len(b) > 1 {
+			if t := specMetaType(b[1]); sv.typ != t {
+				add("smf.Message.Type() = %d, the SMF 1.0 meta event table says %d", sv.typ, t)
+			}
+		}
+	}
 	if sv.isMeta != (len(b) > 0 && b[0] == 0xFF) {
 		add("IsMeta = %v", sv.isMeta)
 	}
@@ -337,6 +409,12 @@ func c08Oracle(b []byte, mv *midiView, sv *smfView) (bad []string) {
 	}
 	if len(acc) > 1 {
 		add("more than one midi accessor accepts: %v", acc)
+	}
+	// MIDI 1.0 fixes the length of every channel-voice and system-common message (status + 1 or 2 data bytes)
+	for i, n := range midiAccLen {
+		if n > 0 && mv.acc[i] && len(b) != n {
+			add("%s accepts a string of %d bytes, a MIDI 1.0 message of its type has %d", midiAccNames[i], len(b), n)
+		}
 	}
 	for i, ok := range sv.acc {
 		if ok {
